@@ -21,26 +21,38 @@ type Chain struct {
 	LogN  int
 	QBits []int
 	PBits []int
+	CI    bool // conjugate-invariant ring Z[X+X^-1]/(X^2N+1)
 }
 
 // The catalogue of chains (DESIGN §5): equal sizes with #P not dividing #Q, unequal sizes (so that
 // the per-modulus base-two digit counts differ), smallest prime first, no auxiliary modulus.
 var (
-	ChainMid   = Chain{"mid", 4, []int{30, 30, 30}, []int{30, 30}}
-	ChainMixed = Chain{"mixed", 4, []int{55, 30, 45, 36}, []int{56}}
-	ChainMixup = Chain{"mixup", 4, []int{30, 55, 40}, []int{56}}
-	ChainNoP   = Chain{"nop", 4, []int{30, 30}, nil}
-	ChainBig   = Chain{"big", 4, []int{60, 59}, []int{61}}
-	ChainMid5  = Chain{"mid5", 5, []int{30, 30, 30}, []int{30, 30}}
+	ChainMid   = Chain{"mid", 4, []int{30, 30, 30}, []int{30, 30}, false}
+	ChainMixed = Chain{"mixed", 4, []int{55, 30, 45, 36}, []int{56}, false}
+	ChainMixup = Chain{"mixup", 4, []int{30, 55, 40}, []int{56}, false}
+	ChainNoP   = Chain{"nop", 4, []int{30, 30}, nil, false}
+	ChainBig   = Chain{"big", 4, []int{60, 59}, []int{61}, false}
+	ChainMid5  = Chain{"mid5", 5, []int{30, 30, 30}, []int{30, 30}, false}
+	// conjugate-invariant rings: even and odd log N, with and without unequal prime sizes / P
+	ChainMidCI   = Chain{"midci", 4, []int{30, 30, 30}, []int{30, 30}, true}
+	ChainMixedCI = Chain{"mixedci", 5, []int{55, 30, 45, 36}, []int{56}, true}
+	ChainNoPCI   = Chain{"nopci", 5, []int{30, 30}, nil, true}
 	// ChainTiny: the smallest NTT-friendly primes (bits 0 = smallest), so that residues of public points collide easily
-	ChainTiny = Chain{"tiny", 4, []int{0, 0, 0}, []int{0}}
+	ChainTiny = Chain{"tiny", 4, []int{0, 0, 0}, []int{0}, false}
 	// CKKS chains: enough modulus below the top for GetMinimumLevelForRefresh(128, scale, N, Q) to have room
-	ChainCK40 = Chain{"ck40", 4, []int{60, 50, 50, 40, 40, 40}, []int{61}}
-	ChainCK25 = Chain{"ck25", 5, []int{55, 50, 50, 25, 25}, []int{56}}
+	ChainCK40 = Chain{"ck40", 4, []int{60, 50, 50, 40, 40, 40}, []int{61}, false}
+	ChainCK25 = Chain{"ck25", 5, []int{55, 50, 50, 25, 25}, []int{56}, false}
+	ChainCK40CI = Chain{"ck40ci", 4, []int{60, 50, 50, 40, 40, 40}, []int{61}, true}
+	ChainCK25CI = Chain{"ck25ci", 5, []int{55, 50, 50, 25, 25}, []int{56}, true}
+	// output parameter sets of the parameter-switching masked transforms: another chain of the same degree, and the
+	// same shape at twice / half the degree (the moduli differ with the degree: they are 1 mod 2^(LogN+2))
+	ChainCK40x  = Chain{"ck40x", 4, []int{58, 45, 45, 45}, []int{59}, false}
+	ChainCK40N5 = Chain{"ck40n5", 5, []int{58, 45, 45, 45}, []int{59}, false}
+	ChainCK25N4 = Chain{"ck25n4", 4, []int{55, 45, 45, 45}, []int{56}, false}
 	// Tight chains (primes just above a power of two): at level 2, Q is barely above N_parties * 2^logBound with
 	// logBound = 128+40, i.e. GetMinimumLevelForRefresh's answer leaves no slack (1 party: 2^168, 2 parties: 2^169)
-	ChainCKTight1 = Chain{"cktight1", 4, []int{-60, -54, -54, 40}, []int{61}}
-	ChainCKTight2 = Chain{"cktight2", 4, []int{-60, -55, -54, 40}, []int{61}}
+	ChainCKTight1 = Chain{"cktight1", 4, []int{-60, -54, -54, 40}, []int{61}, false}
+	ChainCKTight2 = Chain{"cktight2", 4, []int{-60, -55, -54, 40}, []int{61}, false}
 )
 
 // Moduli returns distinct primes of the requested sizes.
@@ -96,7 +108,11 @@ func Cached[T any](key string, build func() T) T {
 func (ch Chain) RLWE(ntt bool) rlwe.Parameters {
 	return Cached(fmt.Sprintf("rlwe/%s/%v", ch.Name, ntt), func() rlwe.Parameters {
 		Q, P := ch.Moduli()
-		return uni.RLWE(rlwe.ParametersLiteral{LogN: ch.LogN, Q: Q, P: P, NTTFlag: ntt})
+		rt := ring.Standard
+		if ch.CI {
+			rt = ring.ConjugateInvariant
+		}
+		return uni.RLWE(rlwe.ParametersLiteral{LogN: ch.LogN, Q: Q, P: P, NTTFlag: ntt, RingType: rt})
 	})
 }
 
@@ -116,7 +132,11 @@ func (ch Chain) BGV(t uint64) bgv.Parameters {
 func (ch Chain) CKKS(logScale int) ckks.Parameters {
 	return Cached(fmt.Sprintf("ckks/%s/%d", ch.Name, logScale), func() ckks.Parameters {
 		Q, P := ch.Moduli()
-		p, err := ckks.NewParametersFromLiteral(ckks.ParametersLiteral{LogN: ch.LogN, Q: Q, P: P, LogDefaultScale: logScale})
+		rt := ring.Standard
+		if ch.CI {
+			rt = ring.ConjugateInvariant
+		}
+		p, err := ckks.NewParametersFromLiteral(ckks.ParametersLiteral{LogN: ch.LogN, Q: Q, P: P, LogDefaultScale: logScale, RingType: rt})
 		if err != nil {
 			panic(fmt.Sprintf("mp.CKKS: %v", err))
 		}
@@ -184,3 +204,24 @@ func UniformPlaintext(params rlwe.Parameters, level int, key ...interface{}) (*r
 	ring.NewUniformSampler(uni.KeyedPRNG(key...), params.RingQ().AtLevel(level)).Read(pt.Value)
 	return pt, uni.PolyCoeffs(params.RingQ(), pt.Value, level, pt.IsNTT, false)
 }
+
+// Instances builds the protocol objects of n parties. mode 0: party 0 is constructed, every other party is a
+// ShallowCopy of party 0 (the repository's usage); 1: every party constructs its own; 2: a chain of copies
+// (party i = ShallowCopy of party i-1). Results must not depend on the mode.
+func Instances[P any](mode, n int, fresh func() P, copyOf func(P) P) []P {
+	out := make([]P, n)
+	for i := range out {
+		switch {
+		case i == 0 || mode == 1:
+			out[i] = fresh()
+		case mode == 2:
+			out[i] = copyOf(out[i-1])
+		default:
+			out[i] = copyOf(out[0])
+		}
+	}
+	return out
+}
+
+// InstanceNames are the coverage buckets of the instance axis.
+var InstanceNames = [...]string{"copies-of-party0", "all-constructed", "chain-of-copies"}
